@@ -83,7 +83,7 @@ CLAIMED = {
    technique="TLA+ specs UdpJob.tla (the owned UDP engine, one action per ownership step: portable and batch readers, inline pass, handoff and replay, worker bursts, overflow goroutines, flushTX; UdpSlab.tla is the per-slab step shared with the trace spec) and TcpConn.tla (pipelined frames, job class swap, staged frames and flush) model-checked exhaustively with TLC (SingleOwner, ReplyIsOwn, SilentStaysSilent, AtMostOneSend, ReleaseOnce, LeaseBound, QuiescedIff; four regression configs with the scrub / rawSA reset / staged-is-terminal / flush-wait rules switched off must each fail); the real server.Server is driven on loopback UDP/TCP/DoH/DoH3/DoQ sockets by concurrent clients that check byte provenance of everything they receive, and the ownership walk recorded through the verif trace hook is validated line by line by TLC against Trace_UdpJob.tla / Trace_TcpConn.tla with the invariants evaluated at every event",
    text="Every interleaving of 2-3 clients' packets (hit, miss, malformed, QR, bad opcode/counts, panic, ignored, write-then-handoff) over 3-4 slabs, tiny queues and caps is explored in the model; on the real engines (batch, mixed fallback, portable; workers 1-2, queue 1) about 17,000 recorded ownership events per quick run are explained by the spec with ReplyIsOwn evaluated at each send, every datagram/frame a client receives must carry its own id, question and rdata = f(question), silent kinds must stay silent, and all slabs must come home.",
    design_ref="2.5",
-   note="The kernel's recvmmsg/sendmmsg ordering and loopback delivery are trusted; release() and serveInline's transition+count are single steps in the model; secure legs run under a self-generated certificate and a leg whose listener does not come up offline (DoT in this sandbox) is reported as skipped in the evidence, never faked."),
+   note="The kernel's recvmmsg/sendmmsg ordering and loopback delivery are trusted; release() and serveInline's transition+count are single steps in the model; secure legs run under a self-generated certificate and a leg whose listener does not come up offline is reported as skipped in the evidence, never faked."),
  "C11": dict(
    technique="TLA+ specs Dedup.tla (Cache.ServeDNS dedup loop over the real internal/waitgroup API with the written-once writer: join, wait, recheck, regroup, lead downstream, done-generation, deadlines and cancellation) and UpFault.tla (per-server fault scripts over a two-server zone) model-checked with TLC (AtMostOneReply, OneLeaderPerGeneration, FollowersNeverDone, FailureIsPrivate; liveness under weak fairness; bounded time with an urgent clock; a writer-guard-off config must fail); TLC behaviours replayed call by call on the real WaitGroup, forced as gated goroutine schedules on the real Cache.ServeDNS with the recorded executions validated against Trace_Dedup.tla, and sampled fault scripts played by scripted authorities against the real full pipeline on real UDP+TCP sockets",
    text="All 10^4 two-server fault scripts (drop, delay past the timeout, TC then TCP stall/reset, wrong id, wrong question, garbage, SERVFAIL/REFUSED) are checked on the abstract resolver and 200 (quick) to 5,000 (thorough) of them are played for real with duplicate and distinct queries in flight and disconnecting clients: exactly one reply, own id/question, truth or SERVFAIL, within querytimeout + margin; afterwards the server is quiesced, slabs and limiter slots are home, goroutines are back and a full wave of honest queries resolves. The dedup tier executes every sampled TLC schedule on real goroutines: one reply per client, a leader's local failure reaches only its own client, one downstream call per generation.",
